@@ -23,6 +23,11 @@ LOOP_SUFFIX = '''            invariant
                 i_c > 0 ==> last_ch == Some(s@[i_c - 1]),
                 s@.len() > 0 ==> is_op(s@[0]),
             decreases chars.len() - i_c,'''
+LOOP_CAPSET = '''            invariant
+                i_n <= names.len(),
+                strs_view(names@) == comma_pieces(s@),
+                forall|j: int| 0 <= j < i_n ==> known_cap(#[trigger] comma_pieces(s@)[j]),
+            decreases names.len() - i_n,'''
 LOOP_TEXT = '''            invariant
                 i_p <= parts.len(),
                 strs_view(parts@) == tokens(s@),
@@ -43,8 +48,16 @@ pub open spec fn suffix_ok(s: Seq<char>) -> bool {
     &&& forall|i: int| 0 <= i < s.len() ==> is_op(#[trigger] s[i]) || is_flag(s[i])
     &&& forall|i: int| 0 < i < s.len() ==> !(is_op(#[trigger] s[i]) && is_op(s[i - 1]))
 }
-/// the verdict of validate_capset on a name list: NOT decided here (to_uppercase / CAPS table lookup)
-pub uninterp spec fn capset_ok(names: Seq<char>) -> bool;
+/// the comma-separated pieces of a text, in order (std: str::split(','): one more piece than commas, pieces may be empty)
+pub uninterp spec fn comma_pieces(s: Seq<char>) -> Seq<Seq<char>>;
+/// `name.to_uppercase()` is one of the capability names of the CAPS table (the table's CONTENT is not examined)
+pub uninterp spec fn known_cap(name: Seq<char>) -> bool;
+/// `s.eq_ignore_ascii_case("all")`
+pub uninterp spec fn is_all(s: Seq<char>) -> bool;
+/// a name list: empty, "all" in any case, or comma-separated known capability names - EVERY piece, also an empty one
+pub open spec fn capset_ok(names: Seq<char>) -> bool {
+    names.len() == 0 || is_all(names) || forall|j: int| 0 <= j < comma_pieces(names).len() ==> known_cap(#[trigger] comma_pieces(names)[j])
+}
 /// index of the first operator of a clause, or its length
 pub open spec fn first_op(c: Seq<char>) -> int
     decreases c.len(),
@@ -102,9 +115,14 @@ pub fn str_from<'a>(s: &'a str, i: usize) -> (r: &'a str)
     requires on_boundary(s@, i), 0 <= cidx(s@, i) <= s@.len(),
     ensures r@ == s@.subrange(cidx(s@, i), s@.len() as int),
 { &s[i..] }
-/// validate_capset: NOT under contract beyond "its verdict is a function of the name list"
 #[verifier::external_body]
-pub fn validate_capset(s: &str) -> (r: Result<(), Error>) ensures r is Ok <==> capset_ok(s@) { unimplemented!() }
+pub fn eq_ignore_case_all(s: &str) -> (r: bool) ensures r == is_all(s@) { s.eq_ignore_ascii_case("all") }
+/// R8/R32: `for part in s.split(',')`
+#[verifier::external_body]
+pub fn split_comma_vec<'a>(s: &'a str) -> (r: Vec<&'a str>) ensures strs_view(r@) == comma_pieces(s@) { s.split(',').collect() }
+/// R32: `CAPS.contains(&part.to_uppercase().as_str())`
+#[verifier::external_body]
+pub fn caps_contains_upper(part: &str) -> (r: bool) ensures r == known_cap(part@) { unimplemented!() }
 
 pub proof fn lemma_first_op(c: Seq<char>)
     ensures
@@ -124,6 +142,17 @@ pub proof fn lemma_first_op(c: Seq<char>)
     }
 }
 '''),
+    Fn(CAPS, 'validate_capset',
+       subs=[ret(), ERR,
+             ('s.is_empty()', 'str_is_empty(s)', 1, 'R32-str::is_empty'),
+             ('s.eq_ignore_ascii_case("all")', 'eq_ignore_case_all(s)', 1, 'R32-eq_ignore_ascii_case'),
+             ('!CAPS.contains(&part.to_uppercase().as_str())', '!caps_contains_upper(part)', 1, 'R32-upper-cased lookup in the CAPS table'),
+             ('fn validate_capset', '#[verifier::loop_isolation(false)]\nfn validate_capset', 1, 'verifier attribute: facts about variables the loop does not modify stay available'),
+             ],
+       spec='    ensures r is Ok <==> capset_ok(s@),',
+       index_loops={0: ('i_n', LOOP_CAPSET, '', ("s.split(',')", 'let names = split_comma_vec(s);', 'names'))},
+       before=[('        if !CAPS.contains(', 'proof { assert(strs_view(names@)[i_n as int] == part@); }\n')],
+       ),
     Fn(CAPS, 'validate_suffix',
        subs=[ret(), ERR,
              ('debug_assert!(last_ch.is_some())', 'assert(last_ch is Some)', 1, 'R33-debug_assert! as an obligation (it panics in debug builds)'),
@@ -186,5 +215,5 @@ pub fn canary_c19b(s: &str)
 '''),
 ] + TAIL
 
-OBLIGATIONS = {'validate_suffix': ['C19', 'C17'], 'validate_caps_text': ['C19', 'C17'], 'lemma_first_op': ['C19'], 'FileCaps::new': ['C19', 'C17'], 'FileCaps::from_str': ['C19', 'C17']}   # C17: rejected with an error, never a panic
+OBLIGATIONS = {'validate_capset': ['C19', 'C17'], 'validate_suffix': ['C19', 'C17'], 'validate_caps_text': ['C19', 'C17'], 'lemma_first_op': ['C19'], 'FileCaps::new': ['C19', 'C17'], 'FileCaps::from_str': ['C19', 'C17']}   # C17: rejected with an error, never a panic
 CANARIES = ['canary_c19', 'canary_c19b']
